@@ -2606,23 +2606,31 @@ impl Node {
 
     /// Adds addresses to the node's current allowlist.
     pub fn add_allowlist(&self, adds: &[String]) -> Result<(), Status> {
+        // parse everything first, so that a bad entry does not leave a partial update behind
+        let allowables = self.parse_allowlist(adds)?;
         let mut state = self.get_state();
-        for a in adds.iter() {
-            let allowable = Allowable::from_str(a, self.node_config.network)
-                .map_err(|e| invalid_argument(format!("could not parse {}", e)))?;
+        for allowable in allowables {
             state.allowlist.insert(allowable);
         }
         self.update_allowlist(&state)?;
         Ok(())
     }
 
+    fn parse_allowlist(&self, list: &[String]) -> Result<Vec<Allowable>, Status> {
+        list.iter()
+            .map(|a| {
+                Allowable::from_str(a, self.node_config.network)
+                    .map_err(|e| invalid_argument(format!("could not parse {}", e)))
+            })
+            .collect()
+    }
+
     /// Replace the node's allowlist with the provided allowlist.
     pub fn set_allowlist(&self, list: &[String]) -> Result<(), Status> {
+        let allowables = self.parse_allowlist(list)?;
         let mut state = self.get_state();
         state.allowlist.clear();
-        for a in list.iter() {
-            let allowable = Allowable::from_str(a, self.node_config.network)
-                .map_err(|e| invalid_argument(format!("could not parse {}", e)))?;
+        for allowable in allowables {
             state.allowlist.insert(allowable);
         }
         self.update_allowlist(&state)?;
@@ -2638,10 +2646,9 @@ impl Node {
 
     /// Removes addresses from the node's current allowlist.
     pub fn remove_allowlist(&self, removes: &[String]) -> Result<(), Status> {
+        let allowables = self.parse_allowlist(removes)?;
         let mut state = self.get_state();
-        for r in removes.iter() {
-            let allowable = Allowable::from_str(r, self.node_config.network)
-                .map_err(|e| invalid_argument(format!("could not parse {}", e)))?;
+        for allowable in allowables {
             state.allowlist.remove(&allowable);
         }
         self.update_allowlist(&state)?;
